@@ -2957,10 +2957,12 @@ class QuicConnection:
             max_streams = self._remote_max_streams_bidi
             streams_blocked = self._streams_blocked_bidi
 
-        while streams_blocked and streams_blocked[0].stream_id // 4 < max_streams:
-            stream = streams_blocked.pop(0)
-            stream.is_blocked = False
-            stream.max_stream_data_remote = max_stream_data_remote
+        # the application may have created the streams in any order
+        for stream in streams_blocked[:]:
+            if stream.stream_id // 4 < max_streams:
+                streams_blocked.remove(stream)
+                stream.is_blocked = False
+                stream.max_stream_data_remote = max_stream_data_remote
 
         if not self._streams_blocked_bidi and not self._streams_blocked_uni:
             self._streams_blocked_pending = False
